@@ -91,6 +91,14 @@ def collect(chk):
                                            "rng": ("seed", rng.randrange(1 << 30)), "as_custom": g == "motifs" and not custom,
                                            "style": rng.randrange(4), "name_style": rng.randrange(3), "dict_reuse": i % 4 == 1,
                                            "simple_builder": g != "motifs" and rng.random() < 0.5})))    # (per-edge naming callbacks need a fixed edge count)
+    # motifs with very many members (orbit sizes 49, 98, 107: counts derived through float reciprocals go wrong from 49 on)
+    for size in (49, 98, 107):
+        for reps in (1, 2):
+            cfg = dict(custom=True, sizes=[size], motifs=[([0], [(i, i + 1) for i in range(size - 1)], False)])
+            jds = [(1,)] * (size * reps)
+            for g in ("motifs", "fast"):
+                traces.append(_strip(stub.execute({"gen": g, "via": "direct", "cfg": dict(cfg, custom=(g == "motifs")), "jds": jds,
+                                                   "rng": ("seed", rng.randrange(1 << 30))})))
     # the custom generator also accepts single-orbit configurations written for the fast one
     for i in range(60 if not thorough else 400):
         cname = rng.choice(["f_edge_tri", "f_mix4", "f_k4_cyc5", "f_single_path"])
